@@ -548,6 +548,9 @@ def spec_atom_match( sa, a, as_producer=False ):
         # element names inside a repetition are list positions, not field names: compare formats only
         return any( len( sub ) == len( sa[1] ) and all( spec_atom_match( ( x[0], '' ) if x[0] not in ( 'pad', 'repeat' ) else x, y, as_producer )
                                                         for x, y in zip( sa[1], sub )) for sub in a[2] )
+    if kind == 'text_fixed':
+        # a field of exactly sa[2] octets: a fixed 'Ns' struct field, or a run of raw octets of that constant length
+        return ( a[0] == 'F' and a[1][1] == '%ds' % sa[2] ) or ( a[0] == 'V' and dict( a[3] if len( a ) > 3 else () ).get( 'len' ) == sa[2] )
     if kind == 'data':
         return a[0] == 'V' and a[1] in DATA_KINDS
     if kind in ( 'EPATH', 'EPATH_padded', 'route_path', 'status', 'CPF', 'SSTRING', 'STRING' ):
@@ -598,10 +601,26 @@ def show_spec( sseq ):
 @rule( 'L-SPEC', props=( 'C14', 'C01' ), floor=40 )
 def l_spec( ctx ):
     """for the messages an independent client uses: the extracted parser accepts the CIP-spec layout field for field, and the reply producers emit exactly a spec layout"""
-    res = Result( 'L-SPEC' )
+    return _l_spec( ctx, Result( 'L-SPEC' ), False )
+
+
+# layouts that matter to an independent peer only ( cpppo's own parser and producer agree with each other on them ): decided by L-SPECTEXT,
+# which is registered for the interoperability property alone
+INTEROP_ONLY = ( 'communications_service', )
+
+
+@rule( 'L-SPECTEXT', props=( 'C14', ), floor=1 )
+def l_spectext( ctx ):
+    """fixed-width text fields of the encapsulation replies ( ListServices name of service: 16 octets, NUL padded ) are produced at the width the specification states"""
+    return _l_spec( ctx, Result( 'L-SPECTEXT' ), True )
+
+
+def _l_spec( ctx, res, interop_only ):
     g = grammar_of( ctx )
     layouts = { ( e['cls'], e['number'] ): e for e in service_layouts( ctx ) }
     for key, sseqs in sorted( spec.MESSAGE_LAYOUTS.items(), key=lambda kv: str( kv[0] )):
+        if interop_only or key[1] in INTEROP_ONLY:
+            continue
         if key[0] == 'service':
             e = layouts.get(( key[1], key[2] ))
             label = '%s service 0x%02X' % ( key[1], key[2] )
@@ -617,6 +636,8 @@ def l_spec( ctx ):
             Q = resolve_struct_lits( ParserLayout( g ).seqs( m.sub_initial(), '' ))
             site_src = ctx.src( FILES[m.site[0]] ); line = g.classes[key[1]][0].lineno
         for sseq in sseqs:
+            if any( x[0] == 'text_fixed' for x in sseq ):
+                continue			# fixed text fields are decided on the producer side only ( how a parser spells "n octets, NUL padded" is open )
             if any( spec_seq_match( sseq, q.atoms ) for q in Q ):
                 res.ok( site_src, L( line ), '%s: parser accepts spec layout [%s]' % ( label, show_spec( sseq )))
             else:
@@ -625,7 +646,7 @@ def l_spec( ctx ):
                          'closest parser layout [%s]: a reference encoding would be mis-parsed' % show_seq( closest ), func=label )
     # class-level producers against the spec: every layout <class>.produce can emit is a spec layout of that class
     for key, sseqs in sorted( spec.MESSAGE_LAYOUTS.items(), key=lambda kv: str( kv[0] )):
-        if key[0] != 'class' or key[1] not in CODEC_PAIRS:
+        if key[0] != 'class' or key[1] not in CODEC_PAIRS or ( key[1] in INTEROP_ONLY ) != interop_only:
             continue
         fn_, P_, Q_, unknown_ = codec_layouts( ctx, key[1] )
         if unknown_:
@@ -642,6 +663,8 @@ def l_spec( ctx ):
             else:
                 res.bad( psrc, L( p.trace[0][0] if p.trace and isinstance( p.trace[0][0], int ) else fn_.lineno ), 'class %s: produced layout [%s] is not a spec layout' % ( key[1], show_seq( p )),
                          'spec: %s - an independent peer decodes these bytes differently' % ' | '.join( '[%s]' % show_spec( q ) for q in sseqs ), func=key[1] + '.produce' )
+    if interop_only:
+        return res
     for cname, num in spec.REPLY_PRODUCERS:
         e = layouts.get(( cname, num ))
         if e is None or e['sel'] is None:
@@ -800,6 +823,33 @@ def k_ncpstate( ctx ):
                      'the parameter word and its size class must change together', func='Connection.' + f.name )
         if not bad:
             res.ok( src, f, 'Connection.%s: no decoding property is read between the stores of _NCP and _large, and both are stored on every path that stores one' % f.name )
+    # the constructor: a supplied NCP word is kept verbatim only while some parameter is left to it; a FULLY specified parameter set is encoded
+    # afresh ( that is how the `large` setter re-encodes: Connection( **decoding-with-large-flipped ) carries the old word along )
+    ini = src.get( 'Connection.__init__' )
+    keep = [ i for i in walk_no_nested( ini ) if isinstance( i, ast.If ) and any( pmatch( b, 'self._NCP = NCP' ) is not None for b in i.orelse )
+             and any( isinstance( b, ast.Assign ) and dotted( b.targets[0] ) == 'self._NCP' for b in i.body ) ]
+    if len( keep ) != 1:
+        raise AnalysisError( 'Connection.__init__: the choice between encoding the parameters and keeping the supplied NCP not found' )
+    params = [ a.arg for a in ini.args.args if a.arg in ( 'size', 'variable', 'priority', 'type', 'redundant' ) ]
+    ld_ = { t.id: a.value for a in walk_no_nested( ini ) if isinstance( a, ast.Assign ) for t in a.targets if isinstance( t, ast.Name ) }
+    wrong = []
+    for ncp, full in (( None, True ), ( None, False ), ( 0x43F4, True ), ( 0x43F4, False )):
+        env = dict( NCP=ncp, **{ p_: ( 1 if full else None ) for p_ in params } )
+        for nm, val in ld_.items():
+            v_ = try_fold( val, env, NoFold )
+            if v_ is not NoFold:
+                env[nm] = v_
+        got = try_fold( keep[0].test, env, NoFold )
+        if got is NoFold:
+            raise AnalysisError( 'Connection.__init__: encode-or-keep condition outside the modelled subset: %s' % norm_text( keep[0].test ))
+        want = ncp is None or full
+        if bool( got ) != want:
+            wrong.append(( ncp, full, bool( got )))
+    if wrong:
+        res.bad( src, keep[0], 'Connection.__init__: with NCP %s and %s parameters the word is %s' % ( 'given' if wrong[0][0] is not None else 'absent', 'fully specified' if wrong[0][1] else 'partly specified', 'encoded afresh' if wrong[0][2] else 'kept verbatim' ),
+                 'Connection( **decoding ) with the size class flipped keeps the word of the OTHER class: the `large` setter only flips the flag, a small NCP goes out unshifted in the 32-bit field and parses back as another connection', func='Connection.__init__' )
+    else:
+        res.ok( src, keep[0], 'Connection.__init__ encodes afresh when no NCP is given or all parameters are; keeps a supplied NCP only for partly specified parameters (4 cells)' )
     if n < 1:
         raise AnalysisError( 'defaults.Connection: no method storing _NCP / _large found' )
     res.ok( src, cd, 'decoding readers of ( _NCP, _large ): %s' % sorted( decoders ), nontrivial=False )
